@@ -668,12 +668,10 @@ theorem C05.statement_concrete_exhaustive (maxGroup : Nat) :
     C05.FullStatement (concrete maxGroup (allMonos monoSel)) :=
   C05.statement_concrete_partial maxGroup (allMonos monoSel) (fun _ _ _ h => h) (allMonos_searchEquivariant monoSel)
 
-/-! ### The component-aware and fallback strategies of the C06 model -/
+/-! ### The component-aware and fallback strategies of the C06 model
 
-/-- The component-aware strategy as the reactor calls it: `findComp` of the C06 model on `monoSel`,
-no `max_results`, any `strict_cc_count` / `threshold`; nothing on ill-formed graphs. -/
-def compSearch (strict : Bool) (thr : Nat) (H P : LGraph) : List Mapping :=
-  if H.WF ∧ P.WF then SynKit.SubgraphSearch.findComp monoSel H P 0 strict thr else []
+`compSearch` (the component-aware strategy as the reactor calls it: `findComp` of the C06 model on
+`monoSel`, nothing on ill-formed graphs) is defined in `SynKitModel/ReactorConcrete.lean`. -/
 
 /-- C06 soundness: component-aware matches are exhaustive matches. -/
 theorem compSearch_sub (strict : Bool) (thr : Nat) (H P : LGraph) (m : Mapping)
@@ -722,6 +720,14 @@ theorem C05.statement_concrete (maxGroup : Nat) (strict : Bool) (thr : Nat) :
     C05.FullStatement (concrete maxGroup (compSearch strict thr)) :=
   C05.statement_concrete_partial maxGroup (compSearch strict thr) (compSearch_sub strict thr)
     (compSearch_equivariant strict thr)
+
+/-- **The term the driver executes.** `reactor.results` (`Driver/Reactor.lean`) runs `theReactor max_group strict threshold`
+(`SynKitModel/ReactorConcrete.lean`), which is `concrete max_group (compSearch strict threshold)` by definition: the
+full statement holds of exactly the object that the end-to-end correspondence stream of `harness/props/c05.py`
+compares with the real `SynReactor`. -/
+theorem C05.statement_theReactor (maxGroup : Nat) (strict : Bool) (thr : Nat) :
+    C05.FullStatement (theReactor maxGroup strict thr) :=
+  C05.statement_concrete maxGroup strict thr
 
 /-! ### Non-vacuity of the concrete instance -/
 
